@@ -110,3 +110,38 @@ package document
 //@   invariant plainT(old(xmlPos())) ==> forall k int :: {xmlDepth(k)} old(xmlPos()) <= k && k < xmlPos() ==> xmlDepth(k) >= old(xmlDepth(xmlPos()))
 //@   invariant plainT(old(xmlPos())) ==> runText(run, lastKidEnd(old(xmlPos()), xmlPos(), "t"))
 //@   decreases xmlRem()
+
+
+// parseParagraph (C03 "same sequence of paragraphs, each with the same text", C04 "no body text carried by runs is lost"):
+// called right behind a <w:p> start tag it returns right behind the matching end tag; the paragraph has exactly one run per
+// DIRECT w:r child, in document order (the run read from the k-th w:r child sits at index k, whatever stands between the
+// w:r children), and each run carries the text of its last w:t child (runText, as parseRun states it). Every other child
+// except w:pPr is skipped WHOLE: runs nested in w:hyperlink, w:smartTag, w:ins, w:sdt, w:fldSimple ... are NOT direct
+// children and their text is not kept - the library has no object for these containers (documented limitation; the
+// contract claims nothing about them beyond "the walker does not lose its place").
+//@ spec runAt(p *Paragraph, i int, e int) bool = 0 <= i && i < len(p.Runs) && ite(lastKidEnd(xmlOpen(e) + 1, e, "t") < 0, p.Runs[i].Text.Content == "" && p.Runs[i].Text.Space == "", p.Runs[i].Text.Content == charsCat(xmlOpen(lastKidEnd(xmlOpen(e) + 1, e, "t")) + 1, lastKidEnd(xmlOpen(e) + 1, e, "t")) && p.Runs[i].Text.Space == av(xmlOpen(lastKidEnd(xmlOpen(e) + 1, e, "t")), "space"))
+//@ func (*Document).parseParagraph
+//@ props C06, C03, C04
+//@ appendfacts
+//@ requires d != nil && decoder != nil
+//@ requires xmlPos() >= 1 && tokIsStart(xmlPos() - 1) && tokLocal(xmlPos() - 1) == "p"
+//@ ensures xmlRem() <= old(xmlRem())
+//@ ensures old(d.Body) != nil ==> d.Body != nil
+//@ ensures old(d.Body) != nil && old(elemsOK(d.Body.Elements)) ==> elemsOK(d.Body.Elements)
+//@ ensures err == nil ==> result0 != nil
+//@ ensures xmlPos() >= old(xmlPos())
+//@ ensures err == nil && plainT(old(xmlPos())) ==> xmlPos() > old(xmlPos()) && tokIsEnd(xmlPos() - 1) && xmlDepth(xmlPos()) == old(xmlDepth(xmlPos())) - 1
+//@ ensures err == nil && plainT(old(xmlPos())) ==> forall k int :: {xmlDepth(k)} old(xmlPos()) <= k && k < xmlPos() ==> xmlDepth(k) >= old(xmlDepth(xmlPos()))
+//@ ensures err == nil && plainT(old(xmlPos())) ==> len(result0.Runs) == kidCnt(old(xmlPos()), xmlPos() - 1, "r")
+//@ ensures err == nil && plainT(old(xmlPos())) ==> forall e int :: {xmlOpen(e)} e < xmlPos() - 1 && kidEnd(old(xmlPos()), e, old(xmlDepth(xmlPos())), "r") ==> runAt(result0, kidCnt(old(xmlPos()), xmlOpen(e), "r"), e)
+//@ loop 1
+//@   invariant xmlRem() <= old(xmlRem())
+//@   invariant old(d.Body) != nil ==> d.Body != nil
+//@   invariant old(d.Body) != nil && old(elemsOK(d.Body.Elements)) ==> elemsOK(d.Body.Elements)
+//@   invariant paragraph != nil && fresh(paragraph)
+//@   invariant xmlPos() >= old(xmlPos())
+//@   invariant plainT(old(xmlPos())) ==> xmlDepth(xmlPos()) == old(xmlDepth(xmlPos()))
+//@   invariant plainT(old(xmlPos())) ==> forall k int :: {xmlDepth(k)} old(xmlPos()) <= k && k < xmlPos() ==> xmlDepth(k) >= old(xmlDepth(xmlPos()))
+//@   invariant plainT(old(xmlPos())) ==> len(paragraph.Runs) == kidCnt(old(xmlPos()), xmlPos(), "r")
+//@   invariant plainT(old(xmlPos())) ==> forall e int :: {xmlOpen(e)} e < xmlPos() && kidEnd(old(xmlPos()), e, old(xmlDepth(xmlPos())), "r") ==> runAt(paragraph, kidCnt(old(xmlPos()), xmlOpen(e), "r"), e)
+//@   decreases xmlRem()
